@@ -12,6 +12,7 @@ pub fn run(_v: &serde_json::Value, rep: &mut Report) -> Result<(), String> {
     while p < u64::MAX / 10 { starts.push(p - 2); starts.push(p - 1); starts.push(p); p *= 10; }
     starts.push(p - 2); starts.push(p - 1); starts.push(p);
     starts.push(u64::MAX - 3);
+    starts.push(u64::MAX - 1);   // the third call wraps the counter: ids must go on (from counter 0), not repeat
     let mut seen: HashMap<uuid::Uuid, u64> = HashMap::new();
     for s in starts {
         let g: UuidGenerator = serde_json::from_value(serde_json::json!({"namespace": ns, "counter": s})).map_err(|e| format!("cannot position generator: {e}"))?;
